@@ -14,7 +14,9 @@ EXPLANATION = (
     "(indexing with the result of _calc_sorting_order()). The canonical status of every property of the CoordsCollection family is *derived* by a def-use closure over the property bodies. "
     "SIB: wherever coordinates and weights are used together, both are canonical or both raw. TABLE: _calc_sorting_order feeds lexsort with the dimensions in reversed order (x primary) and every "
     "coordinate rounding in the register package uses COORD_PRECISION (no literal). FLOW: trap identity is the coordinate rounded to COORD_PRECISION, so the uniqueness rejection of Traps.__init__ "
-    "is computed on rounded coordinates too. MAP: MappableRegister.build_register orders by the declared qubit ids. NOT decided: near-ties across the rounding boundary (numeric)."
+    "is computed on rounded coordinates too. MAP: MappableRegister.build_register hands layout.define_register the chosen ids in declared order, each paired with its mapped trap; RegisterLayout.define_register builds the register only after the trap ids "
+    "were validated on both sides (membership in the layout's ids, or a lower and an upper bound: a negative id wraps around in numpy). ALIAS: no public accessor of the register classes returns a cached "
+    "coordinate array itself (as_array / asarray do not copy), so the canonical coordinates cannot be edited from outside. NOT decided: near-ties across the rounding boundary (numeric)."
 )
 ASSUMPTIONS = ["attribute-level taint inside the CoordsCollection class family; aliasing through locals is followed by the guard abstraction"]
 
